@@ -444,12 +444,15 @@ def judge(sheet, iso, m=None, disagree=None, stats=None):
     fresh = [fresh_row(sheet, r) for r in rows]
     pristine = None
     if iso:
-        lean = {k: sheet[k] for k in ("ty", "ty2", "ctxs") if k in sheet}
-        pristine = iso.ask("c09_history", "isolated_row", [dict(sheet=lean, row=r) for r in rows])
+        lean_sheet = {k: sheet[k] for k in ("ty", "ty2", "ctxs") if k in sheet}
+        try:
+            pristine = iso.ask("c09_history", "isolated_row", [dict(sheet=lean_sheet, row=r) for r in rows])
+        except Exception:       # the isolation server is an aid; without it (H) compares with in-process fresh parsers
+            pristine = None
     fails = []
     for i, r in enumerate(rows):
         g, f = cs.outcome(got[i]), cs.outcome(fresh[i])
-        p = pristine[i] if pristine else None
+        p = pristine[i] if pristine and isinstance(pristine[i], list) else None   # None: no reference (child died)
         if g != f:
             fails.append(dict(at=[i], key=K_ROW_HISTORY,
                               what=f"row {i} {show_row(sheet, r)} parsed by the sheet's RowParser gives {g}, by a fresh RowParser {f}"))
@@ -722,7 +725,10 @@ def run_sheets(ctx, nontrivial):
                 if attempts.get(f["key"], 0) >= 3:
                     continue
                 attempts[f["key"]] = attempts.get(f["key"], 0) + 1
-                rep = clean.reproduce(prior, sheet, f["at"]) if clean else None
+                try:
+                    rep = clean.reproduce(prior, sheet, f["at"]) if clean else None
+                except Exception:
+                    rep, clean = None, None
                 if rep is None and clean:
                     st["failures_not_reproduced_in_a_clean_process"] = st.get("failures_not_reproduced_in_a_clean_process", 0) + 1
                     ctx.disagree("sheet: a failure seen in the harness process does not reproduce in a pristine process",
